@@ -281,6 +281,7 @@ for n in (6, 8):
     add("C14", f"c14_sys_write_len{n}_argram", f"c14::sys_write($S, {n}, 0xffe000)", stubs=INSTR_STUBS + (STUB_STDOUT,), keep=["trapa"], unwind=10, timeout=3000, mem_gb=24,
         tier="thorough", note="length and argument block address are call-site constants")
 add("C14", "c14_sys_set_handler", "c14::sys_set_handler($S)", stubs=INSTR_STUBS + (STUB_STDOUT,), keep=["trapa"], unwind=9, timeout=1500)
+add("C14", "c14_sys_other_argblock", "c14::sys_other_argblock($S)", stubs=INSTR_STUBS + (STUB_STDOUT,), keep=["trapa"], unwind=6, timeout=1500, mem_gb=24)
 add("C14", "c14_sys_other", "c14::sys_other($S)", stubs=INSTR_STUBS + (STUB_STDOUT,), keep=["trapa"], unwind=6, timeout=1500, mem_gb=24)
 
 STUB_IOMSG = [("crate::bus::Bus::send_io_port_value", "crate::harness::c16::ghost_send_io_port_value")]
